@@ -80,6 +80,8 @@ COND_WANT = (F(8, 3), F(8, 3), F(-2), F(-2))   # = reference((1,2,4,3), (8,8), x
 
 def conditioning_call(plot_utils):
     """Returns None, or a description of a wrong answer to the conditioning call itself."""
+    core.rejected(plot_utils.vb_scale, "0 0 10 10", "xMinYMax slice", "wide", 5)    # float("wide")
+    core.rejected(plot_utils.vb_scale, 7, None, 5, 5)                                # not a string
     got = plot_utils.vb_scale(*COND_ARGS)
     if any(abs(F(g) - w) > F(1, 10 ** 9) for g, w in zip(got, COND_WANT)):
         return f"vb_scale{COND_ARGS!r} = {tuple(got)!r}, expected {tuple(map(float, COND_WANT))!r}"
@@ -109,7 +111,8 @@ def check_valid(vbox, doc, align, mos, defer, style, vb_style, p_a_r_override=Fa
         return [("raise", f"{desc} raised {type(exc).__name__}: {exc}")]
     r_sx, r_sy, r_tx, r_ty = reference(vbox, doc, eff_align, eff_mos)
     v_x, v_y, v_w, v_h = [F(v) for v in vbox]
-    scale = max(F(doc[0]), F(doc[1]), abs(r_tx), abs(r_ty), 1)
+    # relative to the page (no absolute floor: a page may be 1e-60 or 1e60 units wide)
+    scale = max(F(doc[0]), F(doc[1]), abs(r_tx), abs(r_ty))
     tol = scale * F(1, 10 ** 9)
     out = []
     for c_x in (v_x, v_x + v_w):
@@ -228,8 +231,14 @@ NEAR_SHAPES = [(1000, 1000.5), (1000, 999.5), (1000.5, 1000), (999.5, 1000), (10
 NEAR_DOCS = [(1000, 1000), (793.7008, 1122.5197), (1056, 816), (11, 8.5), (3, 3), (100, 100.01)]
 
 
+_BIG, _SMALL = 2.0 ** 200, 2.0 ** -200
 SEPARATOR_CASES = [((0, 0, 100, 50), (200, 200)), ((-3, 2, 10, 40), (30, 20)),
-                   ((1.5, -2.5, 4, 4), (8, 6)), ((0, 0, 7, 7), (7, 7))]
+                   ((1.5, -2.5, 4, 4), (8, 6)), ((0, 0, 7, 7), (7, 7)),
+                   # the same pictures in absurd units (page and viewBox alike, and crosswise)
+                   ((0.0, 0.0, 100 * _BIG, 50 * _BIG), (200 * _BIG, 200 * _BIG)),
+                   ((-3 * _SMALL, 2 * _SMALL, 10 * _SMALL, 40 * _SMALL), (30 * _SMALL, 20 * _SMALL)),
+                   ((1.5 * _BIG, -2.5 * _BIG, 4 * _BIG, 4 * _BIG), (8 * _SMALL, 6 * _SMALL)),
+                   ((0.0, -_SMALL, 7 * _SMALL, 3 * _SMALL), (7 * _BIG, 7 * _BIG))]
 
 
 def _separator_chunk(cases):
@@ -328,7 +337,7 @@ def run(ctx):
                 "at all (24 viewBoxes x 6 pages); viewBox numbers in every SVG spelling (leading "
                 "'.', '+', trailing '.', exponents) against the canonical spelling; the full "
                 "product of 10 x 8 separator/case spellings of the two attributes (space, comma, "
-                "tab, LF, CRLF, indented line breaks) for 4 geometries x all 60 settings; malformed "
+                "tab, LF, CRLF, indented line breaks) for 8 geometries (four of them in units of 2^200 / 2^-200) x all 60 settings; malformed "
                 "viewBoxes and the sign lattice of the four sizes; non-trivial = uniform-scale cases whose aspect ratios differ "
                 "(alignment and meet/slice change the answer)",
         "samples": core.rotate(part.samples, ctx.seed, 4),
